@@ -63,6 +63,18 @@ func c15Doc(t *rapid.T) gen.Doc {
 	for i := 0; i < n; i++ {
 		extra += rapid.SampledFrom(c15Extra).Draw(t, "extra")
 	}
+	// a user style sheet (parsed on its own, outside any document) defining counter styles: its rules belong to
+	// the renders that are given this sheet, and to no other
+	if rapid.IntRange(0, 5).Draw(t, "usercs") == 0 {
+		d.UserCSS = append(d.UserCSS, rapid.SampledFrom([]string{
+			`@counter-style lower-roman{system:cyclic;symbols:"*"}`,
+			`@counter-style cc{system:cyclic;symbols:"u"}`,
+			`@counter-style upper-alpha{system:fixed;symbols:"one" "two"} @counter-style undefined-elsewhere{system:cyclic;symbols:"?"}`,
+		}).Draw(t, "usercsrule"))
+	}
+	if rapid.IntRange(0, 5).Draw(t, "uselist") == 0 {
+		extra += rapid.SampledFrom([]string{`<ol style="list-style-type:upper-alpha"><li>a<li>b<li>c</ol>`, `<ul style="list-style-type:undefined-elsewhere"><li>a<li>b</ul>`, `<ol style="list-style-type:lower-roman"><li>i<li>ii</ol>`}).Draw(t, "listuse")
+	}
 	if i := strings.LastIndex(d.HTML, "</body>"); i >= 0 {
 		d.HTML = d.HTML[:i] + extra + d.HTML[i:]
 	} else {
